@@ -466,7 +466,7 @@ of an already verified address is skipped — such entries may be garbage; signa
 but not in the digest, so with a recomputed id the altered transaction is accepted. -/
 theorem signature_mutation_rejected_counterexample : ¬ signature_mutation_rejected_statement := by
   intro h
-  have := h ⟨fun _ _ => true, fun _ => true⟩
+  have := h ⟨fun _ _ => true, fun _ => true, fun _ _ => true⟩
     { txidOk := true, initiator := .ak 1, initiatorSigns := [⟨some 1, true⟩, ⟨none, false⟩], authRequire := [],
       authRequireSigns := [], xuper := none, inputs := [{ owner := .ak 1 }] } (by decide) ⟨none, false⟩ (by simp)
   simp at this
@@ -652,7 +652,7 @@ compares -/
 def byRefOnly (cins : List Input) (i : Input) : Bool := cins.any (fun c => c.txid == i.txid && c.offset == i.offset)
 
 private def vault : Name := .ak 999
-private def envAcl : Env := ⟨fun n uris => uris.any (fun u => u.prefixAcct == some n && u.addr == n), fun n => n < 8⟩
+private def envAcl : Env := ⟨fun n uris => uris.any (fun u => u.prefixAcct == some n && u.addr == n), fun n => n < 8, fun _ _ => true⟩
 
 /-- the forged-view attack: address 0 signs; the only input is address 6's output (txid 1, offset 0);
 the execution was shown that output as the vault's -/
@@ -801,7 +801,8 @@ private theorem rwPermLoop_inv (e : Env) (t : SigLogic.Tx) (ws : List AclWrite) 
 /-- **No stage refuses ⇒ signed, owned, and every rule change by its owner.**  (`verifyTx` is the
 part up to `verifyUTXOPermission`, see `accept_implies_signed` for what it yields.) -/
 theorem no_refusal_implies_authorised (e : Env) (t : SigLogic.Tx) (h : firstRefusal e t = none) :
-    verifyTx e t = true ∧ (t.hasRequests = true → ∀ w ∈ t.aclWrites, AclOwnerOk e t w) := by
+    verifyTx e t = true ∧ (∀ m ∈ t.calls, e.methodOk m (users t) = true) ∧
+    (t.hasRequests = true → ∀ w ∈ t.aclWrites, AclOwnerOk e t w) := by
   unfold firstRefusal at h
   by_cases htx : t.txidOk = true
   · simp only [htx, Bool.not_true, Bool.false_eq_true, if_false] at h
@@ -815,7 +816,14 @@ theorem no_refusal_implies_authorised (e : Env) (t : SigLogic.Tx) (h : firstRefu
         simp only [hu] at h
         have hloop : utxoLoop e t.authRequire (byContract t.contractInputs) t.inputs v = true := by
           rw [← utxoLoopV_isSome, hu]; rfl
-        refine ⟨by simp [verifyTx, verifyTxWith, htx, hvs, hloop], ?_⟩
+        have hmp : methodPerm e t = true := by
+          by_cases hm : methodPerm e t = true
+          · exact hm
+          · simp [hm] at h
+        simp only [hmp, Bool.not_true, Bool.false_eq_true, if_false] at h
+        refine ⟨by simp [verifyTx, verifyTxWith, htx, hvs, hloop], ?_, ?_⟩
+        · intro m hm
+          exact List.all_eq_true.mp hmp m hm
         intro hreq
         have hrw : rwPermLoop e t.authRequire t.aclWrites v' = true := by
           by_cases hr : rwPermLoop e t.authRequire t.aclWrites v' = true
@@ -851,7 +859,8 @@ theorem accepted_iff_no_refusal (relies : Bool) (e : Env) (t : SigLogic.Tx) :
 /-- **What `Chain.SubmitTx` takes into the pool is signed and authorised**, on marked chains too. -/
 theorem pooled_implies_authorised (relies : Bool) (e : Env) (t : SigLogic.Tx) (spendable : Bool)
     (h : submitTx relies e t spendable = true) :
-    verifyTx e t = true ∧ (t.hasRequests = true → ∀ w ∈ t.aclWrites, AclOwnerOk e t w) := by
+    verifyTx e t = true ∧ (∀ m ∈ t.calls, e.methodOk m (users t) = true) ∧
+    (t.hasRequests = true → ∀ w ∈ t.aclWrites, AclOwnerOk e t w) := by
   rw [submit_iff_accepted, Bool.and_eq_true] at h
   exact no_refusal_implies_authorised e t ((accepted_iff_no_refusal relies e t).mp h.1)
 
@@ -861,7 +870,17 @@ theorem acl_change_without_owner_not_pooled (relies : Bool) (e : Env) (t : SigLo
     submitTx relies e t spendable = false := by
   apply Bool.eq_false_iff.mpr
   intro h
-  exact hno ((pooled_implies_authorised relies e t spendable h).2 hreq w hw)
+  exact hno ((pooled_implies_authorised relies e t spendable h).2.2 hreq w hw)
+
+/-- a call of a method whose rule the users (address initiator + listed signers) do not satisfy does
+not reach the pool -/
+theorem guarded_call_without_rule_not_pooled (relies : Bool) (e : Env) (t : SigLogic.Tx) (spendable : Bool)
+    (m : Nat) (hm : m ∈ t.calls) (hno : e.methodOk m (users t) = false) : submitTx relies e t spendable = false := by
+  apply Bool.eq_false_iff.mpr
+  intro h
+  have := (pooled_implies_authorised relies e t spendable h).2.1 m hm
+  rw [hno] at this
+  cases this
 
 /-- Why the fixed errors matter: if ONE stage's own error value were handed on (`return ok, err`)
 and that stage refuses without an error of its own — a rule that is simply not satisfied — the
@@ -885,7 +904,7 @@ private def thief : SigLogic.Tx :=
 transaction was refused without error and taken into the pool. -/
 theorem pooled_was_accepted_as_found : ¬ pooled_was_accepted_statement false := by
   intro h
-  have := h true ⟨fun _ _ => true, fun _ => true⟩ thief (by decide)
+  have := h true ⟨fun _ _ => true, fun _ => true, fun _ _ => true⟩ thief (by decide)
   revert this
   decide
 
@@ -920,7 +939,7 @@ private def tx0 : Schema.Tx :=
 set_option maxRecDepth 20000 in
 example : digestPre tx0 ≠ digestPre { tx0 with core := { tx0.core with desc := [101] } } := by decide
 
-private def env0 : Env := ⟨fun _ _ => true, fun _ => true⟩
+private def env0 : Env := ⟨fun _ _ => true, fun _ => true, fun _ _ => true⟩
 private def stx : SigLogic.Tx :=
   { txidOk := true, initiator := .ak 1, initiatorSigns := [⟨some 1, true⟩], authRequire := [⟨none, 2⟩],
     authRequireSigns := [⟨some 2, true⟩], xuper := none, inputs := [{ owner := .ak 2 }, { owner := .account 7 }] }
@@ -929,7 +948,8 @@ example : verifyTx env0 { stx with authRequireSigns := [⟨some 3, true⟩] } = 
 
 /-- the chain of the `sx` lines: accounts 0..3 are controlled by addresses 0..3, other names are open -/
 private def envX : Env :=
-  ⟨fun n uris => if n < 4 then uris.any (fun u => u.prefixAcct == some n && u.addr == n) else true, fun n => n < 4⟩
+  ⟨fun n uris => if n < 4 then uris.any (fun u => u.prefixAcct == some n && u.addr == n) else true, fun n => n < 4,
+   fun m us => m != 1 || us.any (fun u => u.prefixAcct == none && u.addr == 3)⟩
 private def ruleChange (auth : List AuthReq) (sigs : List Sig) : SigLogic.Tx :=
   { txidOk := true, initiator := .ak 0, initiatorSigns := [⟨some 0, true⟩], authRequire := auth, authRequireSigns := sigs,
     xuper := none, inputs := [{ owner := .ak 0 }], hasRequests := true, aclWrites := [.account 1] }
@@ -938,6 +958,9 @@ example : submitTx false envX (ruleChange [⟨some 1, 1⟩] [⟨some 1, true⟩]
 example : firstRefusal envX (ruleChange [] []) = some .rwperm := by decide
 example : submitTx true envX (ruleChange [] []) true = false := by decide
 example : (stateVerifyTx true envX (ruleChange [] [])) = ⟨false, true⟩ := by decide
+-- method 1 is guarded by address 3: its call by address 0 alone is refused at the method stage, with address 3 listed it passes
+example : firstRefusal envX { ruleChange [] [] with aclWrites := [], calls := [1] } = some .method := by decide
+example : firstRefusal envX { ruleChange [⟨none, 3⟩] [⟨some 3, true⟩] with aclWrites := [], calls := [1] } = none := by decide
 -- a multi-signature of both listed keys is accepted in the aggregated form
 example : verifyTx envX { loneSigner with xuper := some { keyAddrs := [some 0, some 1], sigOk := true, multi := true } } = true := by decide
 
